@@ -236,6 +236,8 @@ func runC08(c *Ctx) {
 	c.Rule("O8.5", "every blocking send observes cancellation: each send of ammo in a Provider.Run call tree is a select case next to a <-ctx.Done() case that leads to return")
 	c.Rule("O8.6", "cancellation is observed on every cycle: every loop in a Provider.Run call tree passes a context observation, or is a counted loop / consumes input from a scanner (named idioms), or is listed with a reason")
 	c.Rule("O8.7", "a cancelled provider ends with a context error the engine recognises: in every Provider.Run call tree an error that may be ctx.Err() - the result of ctx.Err() or the error of a callee that can return it - is never wrapped with fmt.Errorf / xerrors.Errorf (errutil.IsCtxError compares ctx.Err() with pkg/errors.Cause(err), which does not see through %w) unless the wrap is on the edge where errors.Is(err, context.Canceled) is false; the engine cancels the run context itself at the normal end of every run, so a wrapped cancellation turns a finished run into 'provider failed'")
+	c.Rule("O8.8", "a source that can be read again can be rewound: the generic provider realises `passes` by seeking the opened source back to its start and silently reads a non-seekable source once; so for every data source registered as a plugin (register.DataSource in core/import: file, stdin, inline) the value its OpenSource returns has a type with a Seek method")
+	c08SeekableSources(c)
 	c.Rule("O3.7", "queue semantics: Acquire reports ok=false only on the closed-channel edge (named exception: request build / middleware errors of the HTTP provider)")
 	P := c.P
 	provs := providers(c, "O8.3")
@@ -1385,4 +1387,126 @@ func pureHelper(fn *ssa.Function) bool {
 		}
 	})
 	return pure
+}
+
+// c08SeekableSources decides O8.8.
+func c08SeekableSources(c *Ctx) {
+	P := c.P
+	imp := P.SSAPkg("core/import")
+	if imp == nil {
+		c.Anchor("O8.8", "package core/import")
+		return
+	}
+	hasSeek := func(t types.Type) bool {
+		for _, rt := range []types.Type{t, types.NewPointer(t)} {
+			ms := types.NewMethodSet(rt)
+			for i := 0; i < ms.Len(); i++ {
+				if ms.At(i).Obj().Name() == "Seek" {
+					return true
+				}
+			}
+		}
+		return false
+	}
+	// concrete types behind an interface value: what was put into it
+	var concrete func(v ssa.Value, d int) []types.Type
+	concrete = func(v ssa.Value, d int) []types.Type {
+		var out []types.Type
+		for _, r := range ThroughReturns(v) {
+			switch x := r.(type) {
+			case *ssa.MakeInterface:
+				out = append(out, x.X.Type())
+			case *ssa.ChangeInterface:
+				out = append(out, x.X.Type())
+			case *ssa.Phi:
+				if d < 3 {
+					for _, e := range x.Edges {
+						out = append(out, concrete(e, d+1)...)
+					}
+				}
+			default:
+				// made by a constructor of another pandora package (datasource.NewFile(fs, conf))
+				if cl, idx := CallOfValue(r); cl != nil && d < 3 && cl.Call.StaticCallee() != nil && len(cl.Call.StaticCallee().Blocks) > 0 && IsPandora(PkgOf(cl.Call.StaticCallee())) {
+					if idx < 0 {
+						idx = 0
+					}
+					n := len(out)
+					for _, b := range cl.Call.StaticCallee().Blocks {
+						if ret, ok := b.Instrs[len(b.Instrs)-1].(*ssa.Return); ok && idx < len(ret.Results) && !IsNilConst(ret.Results[idx]) {
+							out = append(out, concrete(ret.Results[idx], d+1)...)
+						}
+					}
+					if len(out) > n {
+						continue
+					}
+				}
+				out = append(out, r.Type())
+			}
+		}
+		return out
+	}
+	nSrc := 0
+	seenT := map[string]bool{}
+	for _, g := range PkgFuncs(imp) {
+		if !IsProdFile(P.File(g.Pos())) {
+			continue
+		}
+		EachInstr(g, func(in ssa.Instruction) {
+			cl, ok := in.(*ssa.Call)
+			if !ok || !MatchCC(&cl.Call, Spec{"./core/register", "", "DataSource"}) || len(cl.Call.Args) < 2 {
+				return
+			}
+			name := "?"
+			if sv, isS := ConstString(cl.Call.Args[0]); isS {
+				name = sv
+			}
+			ctors := P.FuncValues(cl.Call.Args[1])
+			if len(ctors) == 0 {
+				c.Unknown("O8.8", "source:"+name+":constructor", cl.Pos(), "the constructor registered for this data source is not a function this analysis can see")
+				return
+			}
+			for _, ctor := range ctors {
+				for _, b := range ctor.Blocks {
+					r, isR := b.Instrs[len(b.Instrs)-1].(*ssa.Return)
+					if !isR || len(r.Results) == 0 || IsNilConst(r.Results[0]) {
+						continue
+					}
+					for _, t := range concrete(r.Results[0], 0) {
+						key := name + ":" + types.TypeString(t, nil)
+						if seenT[key] {
+							continue
+						}
+						seenT[key] = true
+						open := P.MethodFn(t, "OpenSource")
+						if pt, isP := t.(*types.Pointer); isP && open == nil {
+							open = P.MethodFn(pt.Elem(), "OpenSource")
+						}
+						if open == nil || len(open.Blocks) == 0 {
+							c.Unknown("O8.8", "source:"+name+":OpenSource", cl.Pos(), "no OpenSource body found for "+types.TypeString(t, nil))
+							continue
+						}
+						nSrc++
+						for _, ob := range open.Blocks {
+							or, isOR := ob.Instrs[len(ob.Instrs)-1].(*ssa.Return)
+							if !isOR || len(or.Results) == 0 || IsNilConst(or.Results[0]) {
+								continue
+							}
+							ok := true
+							var bad string
+							ts := concrete(or.Results[0], 0)
+							for _, rt := range ts {
+								if !hasSeek(rt) {
+									ok = false
+									bad = types.TypeString(rt, nil)
+								}
+							}
+							c.Check(ok && len(ts) > 0, "O8.8", "source:"+name+":"+fk(open)+":returns-a-seekable-reader", or.Pos(),
+								"OpenSource of the registered data source \""+name+"\" returns a "+bad+", which has no Seek method: `passes` other than 1 are silently read as one pass")
+						}
+					}
+				}
+			}
+		})
+	}
+	c.Floor("O8.8", "registered data sources with an OpenSource body", nSrc, 3)
 }
